@@ -14,6 +14,7 @@ def specs(ck, n, prop, configs):
     rotate = ["dict-with-class-field", "deep-nested-class", "settings", "posonly-star", "nested-class", "typing-named-module",
               "noncanonical-partial-annotations", "alias-annotations", "typing", "type-checking-try", None]
     rotate.insert(1, "type-checking-block-duplicates-runtime-import")
+    rotate.insert(2, "same-named-nested-classes")
     for i in range(n):
         f = rotate[(i // len(styles)) % len(rotate)]
         out.append({"name": f"vfsrc_{prop.lower()}_{ck.seed}_{i}", "seed": f"{prop}:{ck.seed}:{i}", "style": styles[i % len(styles)], "configs": configs,
